@@ -593,7 +593,8 @@ def run_record(ctx, exe, datadir, gtfile, args, prog_args=(), timeout=40, taskse
         cmd += ["taskset", "-c", taskset]
     cmd += [uftrace, "record", "--libmcount-path=" + os.path.join(ctx.src, "libmcount"), "--no-pager", "--no-event",
             "-d", datadir] + list(args) + [exe, gtfile] + [str(a) for a in prog_args]
-    r = subprocess.run(cmd, stdout=subprocess.PIPE, stderr=subprocess.PIPE, text=True)
+    # cwd: a -pg program may drop gmon.out
+    r = subprocess.run(cmd, stdout=subprocess.PIPE, stderr=subprocess.PIPE, text=True, cwd=os.path.dirname(exe))
     return r.returncode, r.stdout, r.stderr
 
 
